@@ -2,7 +2,8 @@
 (* C06 - SSL/TLS structures laid out as the specifications prescribe, written from the RFC
    presentation-language definitions (RFC 5246 4.3 vectors, 6.2.1 records, 7.2 alerts,
    7.4 handshake; RFC 8446 4.1.2-4.2; RFC 6066 3; RFC 7301; RFC 7685; RFC 8449; RFC 7627;
-   RFC 5746 3.2; RFC 5077 3.2; RFC 8879; RFC 7507 / 5746 SCSVs; SSL 2.0 draft).
+   RFC 5746 3.2; RFC 5077 3.2; RFC 8879; RFC 7507 / 5746 SCSVs; RFC 6066 8 (status request / certificate status);
+   RFC 6962 3 (SCT list); NPN draft; SSL 2.0 draft).
 
    Abstract messages are records whose field names follow the implementation's attribute
    names where one exists; integers are < 2^31; 32-bit times cross as digit strings. *)
@@ -52,6 +53,21 @@ ServerHello(m) == Handshake(2, ServerHelloBody(m))
 
 Certificate(m) == Handshake(11, Vec3(Flatten([i \in 1..Len(m.certificates) |-> Vec3(m.certificates[i])])))
 ServerHelloDone(m) == Handshake(14, <<>>)
+\* RFC 5246 7.4.3: the parameters depend on the key exchange; carried as they are
+ServerKeyExchange(m) == Handshake(12, m.params)
+\* RFC 5246 7.4.4: certificate_types<1..2^8-1>, supported_signature_algorithms<2..2^16-2> (TLS 1.2 only),
+\* certificate_authorities<0..2^16-1> of DistinguishedName<1..2^16-1>
+CertificateRequest(m) == Handshake(13, Vec1(Codes8(m.types))
+                                       \o (IF m.has_sig_algs THEN Vec2(Codes16(m.sig_algs)) ELSE <<>>)
+                                       \o Vec2(Flatten([i \in 1..Len(m.authorities) |-> Vec2(m.authorities[i])])))
+\* RFC 6066 8: status_type(1) then OCSPResponse<1..2^24-1>
+CertificateStatus(m) == Handshake(22, U8(m.status_type) \o Vec3(m.response))
+\* RFC 8446 4.1.4: a HelloRetryRequest IS a ServerHello (handshake type 2) whose random is the fixed value below
+HRR_RANDOM == <<207, 33, 173, 116, 229, 154, 97, 17, 190, 29, 140, 2, 30, 101, 184, 145,
+                194, 162, 17, 22, 122, 187, 140, 94, 7, 158, 9, 226, 200, 168, 51, 156>>
+HelloRetryRequest(m) == Handshake(2, U16(m.version) \o HRR_RANDOM \o Vec1(m.session_id) \o U16(m.cipher_suite)
+                                     \o U8(m.compression_method) \o Extensions(m.extensions))
+ApplicationData(m) == m.data                                                        \* RFC 5246 10: opaque to the record layer
 
 \* extension bodies
 ExtServerName(x)     == Vec2(U8(x.name_type) \o Vec2(x.host_name))                   \* RFC 6066 3 (one name)
@@ -72,6 +88,14 @@ ExtRecordSizeLimit(x) == U16(x.limit)                                           
 ExtPskModes(x)       == Vec1(Codes8(x.codes))                                        \* RFC 8446 4.2.9
 ExtCompressCert(x)   == Vec1(Codes16(x.codes))                                       \* RFC 8879 3
 ExtTokenBinding(x)   == <<x.major, x.minor>> \o Vec1(Codes8(x.codes))                \* RFC 8472 2
+\* RFC 6066 8: status_type ocsp(1), ResponderID<1..2^16-1> responder_id_list<0..2^16-1>, Extensions request_extensions<0..2^16-1>
+ExtStatusRequest(x)  == U8(1) \o Vec2(Flatten([i \in 1..Len(x.responders) |-> Vec2(x.responders[i])])) \o Vec2(x.request_extensions)
+\* NPN draft-agl-tls-nextprotoneg-04 3: the extension data is the bare sequence of 1-byte length prefixed names
+ExtNpnServer(x)      == Flatten([i \in 1..Len(x.names) |-> Vec1(x.names[i])])
+\* RFC 6962 3.2 / 3.3: SignedCertificateTimestampList<1..2^16-1> of SerializedSCT<1..2^16-1>;
+\* SCT v1 = version(1) log_id(32) timestamp(8, ms) extensions<0..2^16-1> hash(1) signature(1) signature<0..2^16-1>
+Sct(t) == U8(t.version) \o t.log_id \o PadTo(t.timestamp_ms, 8) \o Vec2(t.extensions) \o U8(t.hash) \o U8(t.sig) \o Vec2(t.signature)
+ExtSct(x)            == Vec2(Flatten([i \in 1..Len(x.scts) |-> Vec2(Sct(x.scts[i]))]))
 
 ExtBody(x) ==
   CASE x.k = "server_name"      -> ExtServerName(x)
@@ -88,6 +112,9 @@ ExtBody(x) ==
     [] x.k = "opaque"           -> ExtOpaque(x)
     [] x.k = "padding"          -> ExtPadding(x)
     [] x.k = "empty"            -> ExtEmpty(x)
+    [] x.k = "status_request"   -> ExtStatusRequest(x)
+    [] x.k = "npn_server"       -> ExtNpnServer(x)
+    [] x.k = "sct"              -> ExtSct(x)
     [] x.k = "record_size_limit" -> ExtRecordSizeLimit(x)
     [] x.k = "psk_modes"        -> ExtPskModes(x)
     [] x.k = "compress_cert"    -> ExtCompressCert(x)
@@ -122,6 +149,11 @@ Enc(kind, m) ==
     [] kind = "server_hello"      -> ServerHello(m)
     [] kind = "certificate"       -> Certificate(m)
     [] kind = "server_hello_done" -> ServerHelloDone(m)
+    [] kind = "server_key_exchange" -> ServerKeyExchange(m)
+    [] kind = "certificate_request" -> CertificateRequest(m)
+    [] kind = "certificate_status" -> CertificateStatus(m)
+    [] kind = "hello_retry_request" -> HelloRetryRequest(m)
+    [] kind = "application_data"  -> ApplicationData(m)
     [] kind = "extension"         -> TypedExtension(m)
     [] kind = "ssl2_error"        -> Ssl2Error(m)
     [] kind = "ssl2_client_hello" -> Ssl2ClientHello(m)
